@@ -8,6 +8,7 @@ import RV.Base.Proto
     t A|B s p o m1,m2,…           -> ok     a triple of data set A or B; members of the aggregate holding it
     bgp s p o s p o …             -> ok     the current basic graph pattern
     init v t                      -> ok     initBindings {?v: t}
+    noinit                        -> ok     no initBindings
     store mem|simple|aud|agg      -> ok     which store model answers `triples`
     eval given                    -> rows … evalBGP in the written order
     eval perm i,j,…               -> rows … evalBGP in that order
@@ -289,6 +290,7 @@ def step (s : St) : List String → St × String
     match var? s.n v, t.toNat? with
     | some v, some t => ({ s with init := s.init.set v t }, "ok")
     | _, _ => (s, "bad-op")
+  | ["noinit"] => ({ s with init := Row.empty }, "ok")
   | ["store", w] =>
     if w = "mem" then ({ s with store := 0 }, "ok")
     else if w = "simple" then ({ s with store := 1 }, "ok")
